@@ -385,6 +385,14 @@ func c02ReaderFacts(s *c02Src) (shortHdr, tornData Tri, where string) {
 		return Unknown, Unknown, c02Where(s.r, ra)
 	}
 	shortHdr, tornData = Unknown, Unknown
+	// the variable that receives the byte count of the header read
+	nv := ""
+	ast.Inspect(fd.Body, func(x ast.Node) bool {
+		if as, ok := x.(*ast.AssignStmt); ok && len(as.Lhs) == 2 && len(as.Rhs) == 1 && s.r.Str(as.Rhs[0]) == "fr.file.Read(headerBuf)" && nv == "" {
+			nv = s.r.Str(as.Lhs[0])
+		}
+		return true
+	})
 	pre := Unknown // the size pre-check (`CompressedSize > remaining`), when there is one
 	hasPre := false
 	for _, st := range fd.Body.List {
@@ -393,11 +401,15 @@ func c02ReaderFacts(s *c02Src) (shortHdr, tornData Tri, where string) {
 			continue
 		}
 		cond := s.r.Str(ifs.Cond)
-		if cond == "n < BlockHeaderSize" && len(ifs.Body.List) == 1 {
-			if s.r.Str(ifs.Body.List[0]) == "return nil, io.EOF" {
+		// `<count> < BlockHeaderSize`, <count> being the first result of the header Read (whatever its name)
+		if nv != "" && cond == nv+" < BlockHeaderSize" && len(ifs.Body.List) == 1 {
+			switch s.r.Str(ifs.Body.List[0]) {
+			case "return nil, io.EOF":
 				shortHdr = Yes
-			} else {
+			case "return nil, io.ErrUnexpectedEOF", "return nil, ErrCorruptedBlock", "return nil, err":
 				shortHdr = No
+			default:
+				shortHdr = Unknown // a shape this extractor does not know: never `no`
 			}
 		}
 		// site 1: a comparison of CompressedSize with what is left of the file, before the allocation
